@@ -36,6 +36,8 @@ EDITS = {
     "hedged-consequent": "e.input_variable('X').term('a').vertex_b = q",
     "two-blocks-output-antecedent": "e.output_variable('P').term('a').value = q",
     "takagi-sugeno-sum": "e.output_variable('O').term('b').value = q",
+    "multi-conclusion-hedged": "e.output_variable('P').term('b').vertex_b = q",
+    "function-input": "e.output_variable('O').term('a').vertex_b = q",
 }
 ENGINES = list(EDITS)
 
@@ -52,6 +54,8 @@ SEQS = {
     "batch-then-scalar": ["B0", "P1", "B2"],
     "copy-of-restarted": ["P0", "R", "C", "cP1", "cCHECK_GRAPH"],
     "toggle-variable": ["Tv", "P0", "Uv", "P1"],
+    "process-again": ["P0", "A", "A", "P1", "A"],            # A: process once more without touching the inputs
+    "batch-again": ["B0", "A", "C", "cA", "A"],
 }
 
 
@@ -140,13 +144,23 @@ def ob_sequence(ename, spec, sname, seq, label):
             c = None
             edits_e, edits_c = [], []       # edits applied so far to original / copy (replayed on the fresh engines)
             toggled = {}
+            last_step = None
             for op in seq:
                 on_copy = op.startswith("c")
                 o = op[1:] if on_copy else op
                 tgt = c if on_copy else e
                 eds = edits_c if on_copy else edits_e
-                if o[0] == "P" or o[0] == "B":
+                if o == "A":
+                    kind, k = last_step
+                    fr = fresh_factory(eds)
+                    (setrow if kind == "P" else setbatch)(fr, k)
+                    tgt.process()
+                    fr.process()
+                    checks.append((f"{op}", _outputs(tgt), _outputs(fr)))
+                    checks.append((f"{op}/inputs-untouched", _inputs(tgt), _inputs_expected(kind, k)))
+                elif o[0] == "P" or o[0] == "B":
                     k = int(o[1:])
+                    last_step = (o[0], k)
                     fr = fresh_factory(eds)
                     # replicate current toggles on the fresh engine (toggles are part of the configuration at this step)
                     for (who, kind, idx), val in toggled.items():
@@ -161,6 +175,7 @@ def ob_sequence(ename, spec, sname, seq, label):
                     tgt.process()
                     fr.process()
                     checks.append((f"{op}", _outputs(tgt), _outputs(fr)))
+                    checks.append((f"{op}/inputs-untouched", _inputs(tgt), _inputs_expected(o[0], k)))
                 elif o == "R":
                     tgt.restart()
                 elif o == "CHECK_RESTARTED":
@@ -196,6 +211,12 @@ def ob_sequence(ename, spec, sname, seq, label):
                     raise AssertionError(op)
             return checks
 
+        def _inputs(eng):
+            return [iv.value for iv in eng.input_variables], []
+
+        def _inputs_expected(kind, k):
+            return ([X[k][i] for i in range(len(names_in))] if kind == "P" else [sym_array([X[k][i], X2[k][i]]) for i in range(len(names_in))]), []
+
         def _toggle(eng, kind, idx, val):
             if kind == "b":
                 eng.rule_blocks[idx].enabled = val
@@ -229,16 +250,21 @@ def ob_sequence(ename, spec, sname, seq, label):
                               "    elif kind == 'r': eng.rule_blocks[0].rules[0].enabled = val",
                               "    else: eng.output_variables[0].enabled = val",
                               "def outs(e): return [np.atleast_1d(np.asarray(ov.value, dtype=float)).tolist() for ov in e.output_variables], [[np.atleast_1d(np.asarray(a.degree, dtype=float)).tolist() for a in ov.fuzzy.terms] for ov in e.output_variables]",
-                              "e = fresh([]); c = None; ee, ec = [], []; tog = {}; bad = None",
+                              "e = fresh([]); c = None; ee, ec = [], []; tog = {}; bad = None; last = None",
+                              "def given(kind, k): return [float(rows[k][i]) if kind == 'P' else np.array([rows[k][i], rows2[k][i]], dtype=float) for i in range(len(rows[k]))]",
                               "for op in seq:",
                               "    oc = op.startswith('c'); o = op[1:] if oc else op; tgt = c if oc else e; eds = ec if oc else ee",
-                              "    if o[0] in 'PB':",
-                              "        k = int(o[1:]); fr = fresh(eds)",
-                              "        for (who, kind), val in tog.items():",
-                              "            if who == ('c' if oc else 'e'): toggle(fr, kind, val)",
+                              "    if o[0] in 'PBA':",
+                              "        again = o == 'A'",
+                              "        if not again: last = (o[0], int(o[1:]))",
+                              "        kind, k = last; fr = fresh(eds)",
+                              "        for (who, tk), val in tog.items():",
+                              "            if who == ('c' if oc else 'e'): toggle(fr, tk, val)",
                               "        for eng in (tgt, fr):",
-                              "            for i, iv in enumerate(eng.input_variables): iv.value = float(rows[k][i]) if o[0] == 'P' else np.array([rows[k][i], rows2[k][i]], dtype=float)",
+                              "            if not (again and eng is tgt):",
+                              "                for i, iv in enumerate(eng.input_variables): iv.value = given(kind, k)[i]",
                               "            eng.process()",
+                              "        if not all(same(iv.value, g0) for iv, g0 in zip(tgt.input_variables, given(kind, k))): bad = 'step %s: input values are %r after processing, %r were given' % (op, [iv.value for iv in tgt.input_variables], given(kind, k)); break",
                               "        g, w = outs(tgt), outs(fr)",
                               "        if not (same(g[0], w[0], 1e-9) and len(g[1]) == len(w[1]) and all(len(a) == len(b) and all(same(x, y, 1e-9) for x, y in zip(a, b)) for a, b in zip(g[1], w[1]))): bad = 'step %s: outputs %r fuzzy %r; a fresh engine gives %r fuzzy %r' % (op, g[0], g[1], w[0], w[1]); break",
                               "    elif o == 'R': tgt.restart()",
